@@ -9,6 +9,7 @@
 From Scrapli Require Import Bytes Generic DecideLang GeneratedSkel.
 From Coq Require Import String List Bool Arith Lia.
 Import ListNotations.
+Open Scope nat_scope.
 Open Scope string_scope.
 
 Lemma unary_length : forall i, String.length (unary i) = i.
@@ -148,4 +149,288 @@ Theorem record_is_source : forall cmd out fws,
 Proof.
   intros cmd out fws. unfold record, failed_with. cbn [r_failed].
   destruct (contains_any_substr out fws); reflexivity.
+Qed.
+
+(* ---------- MultiResponse.AppendResponse ---------- *)
+
+(* tests: re != nil (re is r.Failed asserted to *OperationError — the only type Record stores
+   there), mr.Failed == nil (nothing failed so far, unless this run has just assigned it), ok (the
+   aggregate is a *MultiOperationError — the only type this function stores there) *)
+Definition ar_env (r_failed agg_nil : bool) : denv :=
+  mkEnvX (fun _ => false) (fun _ _ => false) (fun _ => "") (fun _ => None)
+         (fun st a b =>
+            if String.eqb a "re" && String.eqb b "nil" then
+              match sget st "re" with
+              | Some "r.Failed.(*OperationError)" => Some (Some (negb r_failed))
+              | _ => Some None
+              end
+            else if String.eqb a "mr.Failed" && String.eqb b "nil" then
+              match sget st "mr.Failed" with Some _ => Some (Some false) | None => Some (Some agg_nil) end
+            else None)
+         (fun _ => O)
+         (fun st a => if String.eqb a "ok" then
+                        match sget st "ok" with
+                        | Some "ok of mr.Failed.(*MultiOperationError)" => Some (Some true)
+                        | _ => Some None
+                        end
+                      else None).
+
+(* what one call does: (re appended to Operations?, aggregate non-nil afterwards?); the response
+   itself must have been appended to Responses *)
+Definition ar_run (r_failed agg_nil : bool) : option (bool * bool) :=
+  match exec 20 (ar_env r_failed agg_nil) append_response_code [] with
+  | Running st =>
+      match sget st "mr.Responses" with
+      | Some "append(mr.Responses, r)" =>
+          let app := match sget st "e.Operations" with
+                     | None => Some false
+                     | Some "append(e.Operations, re)" => Some true
+                     | Some _ => None
+                     end in
+          let agg := match sget st "mr.Failed" with
+                     | None => Some (negb agg_nil)
+                     | Some "&MultiOperationError{}" => Some true
+                     | Some _ => None
+                     end in
+          match app, agg with Some a, Some g => Some (a, g) | _, _ => None end
+      | _ => None
+      end
+  | _ => None
+  end.
+
+Lemma ar_run_cases : forall rf an, ar_run rf an = Some (rf, negb an || rf).
+Proof. intros [|] [|]; reflexivity. Qed.
+
+(* the multi response as (members, listed failures, aggregate set) and one AppendResponse on it,
+   as the translated source performs it *)
+Definition mstate := (list resp * list resp * bool)%type.
+Definition ar_step (m : mstate) (r : resp) : option mstate :=
+  let '(rs, ops, agg) := m in
+  match ar_run (is_failed r) (negb agg) with
+  | Some (app, agg') => Some ((rs ++ [r])%list, (if app then ops ++ [r] else ops)%list, agg')
+  | None => None
+  end.
+Fixpoint ar_steps (m : mstate) (l : list resp) : option mstate :=
+  match l with
+  | []%list => Some m
+  | (r :: t)%list => match ar_step m r with Some m' => ar_steps m' t | None => None end
+  end.
+
+Definition nilb {A} (l : list A) : bool := match l with []%list => true | _ => false end.
+
+Lemma nilb_app_cons : forall A (l : list A) x, nilb (l ++ [x])%list = false.
+Proof. intros A [|y l] x; reflexivity. Qed.
+
+Lemma ar_steps_gen : forall l rs ops,
+  ar_steps (rs, ops, negb (nilb ops)) l
+  = Some ((rs ++ l)%list, (ops ++ multi_failed l)%list, negb (nilb (ops ++ multi_failed l)%list)).
+Proof.
+  induction l as [|r t IH]; intros rs ops.
+  - cbn [ar_steps multi_failed filter]. now rewrite !app_nil_r.
+  - cbn [ar_steps ar_step]. rewrite ar_run_cases, negb_involutive.
+    unfold multi_failed in *. cbn [filter]. destruct (is_failed r) eqn:Hf.
+    + rewrite orb_true_r. specialize (IH (rs ++ [r])%list (ops ++ [r])%list).
+      rewrite nilb_app_cons in IH. cbn [negb] in IH. rewrite IH, <- !app_assoc. reflexivity.
+    + rewrite orb_false_r. specialize (IH (rs ++ [r])%list ops). rewrite IH, <- !app_assoc. reflexivity.
+Qed.
+
+(* THE TIE: appending any list of responses, one AppendResponse (as translated from the source on
+   this run) each, to an empty multi response leaves exactly those members, lists exactly the
+   failed ones in order, and sets the aggregate exactly when one of them failed *)
+Theorem append_response_is_source : forall l,
+  ar_steps ([]%list, []%list, false) l = Some (l, multi_failed l, collapse_failed l).
+Proof.
+  intros l. change false with (negb (nilb (@nil resp))). rewrite ar_steps_gen. cbn [app].
+  unfold collapse_failed. destruct (multi_failed l); reflexivity.
+Qed.
+
+(* ---------- Driver.SendCommands ---------- *)
+
+(* [fl]: for each command, whether its response gets marked failed.  Every exchange succeeds (err ==
+   nil throughout: what errors do to an operation is C05/C06's subject). *)
+Definition sc2_env (stop : bool) (fl : list bool) : denv :=
+  mkEnvX (fun _ => false)
+         (fun a b => String.eqb a "len(commands)" && String.eqb b "0" && nilb fl)
+         (fun _ => "")
+         (fun a => if String.eqb a "op.StopOnFailed" then Some stop else None)
+         (fun st a b =>
+            if String.eqb a "err" && String.eqb b "nil" then Some (Some true)
+            else if String.eqb a "r.Failed" && String.eqb b "nil" then
+              match sget st "input" with
+              | Some u => match nth_error fl (String.length u) with
+                          | Some f => Some (Some (negb f))
+                          | None => Some None
+                          end
+              | None => Some None
+              end
+            else None)
+         (fun x => if String.eqb x "commands[:len(commands)-1]" then List.length fl - 1 else O)
+         (fun _ _ => None).
+
+Definition is_send (kv : string * string) : bool :=
+  String.eqb (fst kv) "!call" && String.prefix "d.sendCommand(" (snd kv).
+Definition is_append (kv : string * string) : bool :=
+  String.eqb (fst kv) "!call" && String.eqb (snd kv) "m.AppendResponse(r)".
+Definition nsend (st : store) : nat := List.length (filter is_send st).
+Definition nappend (st : store) : nat := List.length (filter is_append st).
+
+(* (commands transmitted, responses appended, what is returned) *)
+Definition sc2_run (stop : bool) (fl : list bool) : option (nat * nat * string) :=
+  match exec 30 (sc2_env stop fl) send_commands_code [] with
+  | Returned st v => Some (nsend st, nappend st, v)
+  | _ => None
+  end.
+
+(* the model's loop, on the failure flags *)
+Fixpoint loop_count (stop : bool) (fl : list bool) : nat :=
+  match fl with
+  | []%list => O
+  | (f :: rest)%list => match rest with
+                        | []%list => 1
+                        | _ => if stop && f then 1 else S (loop_count stop rest)
+                        end
+  end.
+
+Lemma send_loop_count : forall fws stop cmds,
+  List.length (send_loop fws stop cmds)
+  = loop_count stop (map (fun co => is_failed (record (fst co) (snd co) fws)) cmds).
+Proof.
+  intros fws stop cmds. induction cmds as [|[c o] rest IH]; [reflexivity|].
+  cbn [send_loop map loop_count fst snd]. destruct rest as [|p rest']; [reflexivity|].
+  cbn [map]. cbn [map] in IH.
+  destruct (stop && is_failed (record c o fws)); [reflexivity|]. cbn [List.length]. now rewrite IH.
+Qed.
+
+(* index of the first flag at which the loop stops, counting from [i] *)
+Fixpoint fidx (stop : bool) (rest : list bool) (i : nat) : option nat :=
+  match rest with
+  | []%list => None
+  | (f :: t)%list => if stop && f then Some i else fidx stop t (S i)
+  end.
+
+Definition sc2_body : list dstmt :=
+  [DCall "d.sendCommand( input, op, opts..., )"; DIf (DNot (DEq "err" "nil")) [DReturn "nil, err"] [];
+   DCall "m.AppendResponse(r)";
+   DIf (DAnd (DAtom "op.StopOnFailed") (DNot (DEq "r.Failed" "nil"))) [DReturn "m, err"] []].
+
+Lemma sc2_loop : forall stop l rest pre st,
+  match fidx stop rest (List.length pre) with
+  | Some j => exists st',
+      range_loop (exec 25 (sc2_env stop (pre ++ rest ++ [l])) sc2_body) "input" (List.length rest) (List.length pre) st
+      = Returned st' "m, err"
+      /\ nsend st' + List.length pre = nsend st + S j /\ nappend st' + List.length pre = nappend st + S j
+  | None => exists st',
+      range_loop (exec 25 (sc2_env stop (pre ++ rest ++ [l])) sc2_body) "input" (List.length rest) (List.length pre) st
+      = Running st'
+      /\ nsend st' = nsend st + List.length rest /\ nappend st' = nappend st + List.length rest
+  end.
+Proof.
+  intros stop l rest. induction rest as [|f t IH]; intros pre st.
+  - cbn [fidx List.length range_loop]. eexists; split; [reflexivity|]. now rewrite !Nat.add_0_r.
+  - cbn [fidx List.length range_loop].
+    set (st1 := (("!call", "m.AppendResponse(r)") :: ("!call", "d.sendCommand( input, op, opts..., )")
+                 :: ("input", unary (List.length pre)) :: st)%list).
+    assert (Hb : exec 25 (sc2_env stop (pre ++ (f :: t) ++ [l])) sc2_body (("input", unary (List.length pre)) :: st)%list
+                 = if stop && f then Returned st1 "m, err" else Running st1).
+    { unfold sc2_body, st1.
+      cbn [exec eval sc2_env e_atoms e_atom e_eqs e_eq String.eqb Ascii.eqb Bool.eqb sget fst snd andb option_map negb].
+      rewrite unary_length, nth_error_app2, Nat.sub_diag by lia. cbn [nth_error app].
+      destruct stop, f; reflexivity. }
+    rewrite Hb.
+    assert (Hs : nsend st1 = S (nsend st) /\ nappend st1 = S (nappend st)) by (split; reflexivity).
+    destruct Hs as [Hs Ha].
+    destruct (stop && f) eqn:Hc.
+    + exists st1. split; [reflexivity|]. lia.
+    + specialize (IH (pre ++ [f])%list st1).
+      rewrite <- app_assoc in IH. cbn [app] in IH. rewrite app_length in IH. cbn [List.length] in IH.
+      rewrite Nat.add_1_r in IH.
+      destruct (fidx stop t (S (List.length pre))) as [j|].
+      * destruct IH as [st' [E [H1 H2]]]. exists st'. split; [exact E|]. lia.
+      * destruct IH as [st' [E [H1 H2]]]. exists st'. split; [exact E|]. lia.
+Qed.
+
+Lemma loop_count_fidx : forall stop l init,
+  loop_count stop (init ++ [l])
+  = match fidx stop init 0 with Some j => S j | None => S (List.length init) end.
+Proof.
+  intros stop l init.
+  assert (G : forall i, match fidx stop init i with
+                        | Some j => i + loop_count stop (init ++ [l]) = S j
+                        | None => loop_count stop (init ++ [l]) = S (List.length init) end).
+  { induction init as [|f t IH]; intros i; [reflexivity|].
+    cbn [fidx app loop_count]. destruct (t ++ [l])%list eqn:Ht; [destruct t; discriminate|]. rewrite <- Ht in *. clear Ht.
+    destruct (stop && f); [lia|]. specialize (IH (S i)). cbn [List.length].
+    destruct (fidx stop t (S i)); lia. }
+  specialize (G 0). destruct (fidx stop init 0); lia.
+Qed.
+
+Lemma send_commands_code_shape : exists pre post,
+  send_commands_code = ([DIf (DEq "len(commands)" "0") pre []; DCall "NewOperation(opts...)";
+                         DIf (DNot (DEq "err" "nil")) [DReturn "nil, err"] [];
+                         DAssign "m" "response.NewMultiResponse(d.Transport.GetHost())";
+                         DRange "input" "commands[:len(commands)-1]" sc2_body] ++ post)%list
+  /\ pre = [DReturn "nil, fmt.Errorf(""%w: no inputs provided"", util.ErrNoOp)"]
+  /\ post = [DCall "d.sendCommand( commands[len(commands)-1], op, opts..., )";
+             DIf (DNot (DEq "err" "nil")) [DReturn "nil, err"] []; DCall "m.AppendResponse(r)"; DReturn "m, nil"].
+Proof. do 2 eexists. split; [reflexivity|]. split; reflexivity. Qed.
+
+(* one-statement steps of the interpreter (kept as lemmas so that proofs never unfold [exec] on a
+   whole function body) *)
+Definition cont (f : nat) (env : denv) (rest : list dstmt) (r : dres) : dres :=
+  match r with Running s' => exec f env rest s' | x => x end.
+Lemma exec_step_assign : forall f env k v rest s, exec (S f) env (DAssign k v :: rest) s = exec f env rest ((k, v) :: s)%list.
+Proof. reflexivity. Qed.
+Lemma exec_step_call : forall f env c rest s, exec (S f) env (DCall c :: rest) s = exec f env rest (("!call", c) :: s)%list.
+Proof. reflexivity. Qed.
+Lemma exec_step_return : forall f env v rest s, exec (S f) env (DReturn v :: rest) s = Returned s v.
+Proof. reflexivity. Qed.
+Lemma exec_step_nil : forall f env s, exec (S f) env []%list s = Running s.
+Proof. reflexivity. Qed.
+Lemma exec_step_if : forall f env c t e rest s,
+  exec (S f) env (DIf c t e :: rest) s
+  = match eval env s c with
+    | Some true => cont f env rest (exec f env t s)
+    | Some false => cont f env rest (exec f env e s)
+    | None => Stuck
+    end.
+Proof. intros. cbn [exec]. destruct (eval env s c) as [[|]|]; reflexivity. Qed.
+Lemma exec_step_range : forall f env v lst body rest s,
+  exec (S f) env (DRange v lst body :: rest) s
+  = cont f env rest (range_loop (exec f env body) v (e_len env lst) 0 s).
+Proof. reflexivity. Qed.
+
+(* THE TIE: for every non-empty command list and every pattern of failed responses, SendCommands as
+   translated from the source on this run transmits exactly as many commands as the model's loop
+   (always an initial segment of the list, by construction of the loop), appends exactly one
+   response per transmitted command, and returns the multi response *)
+Theorem send_commands_is_source : forall stop init l,
+  let fl := (init ++ [l])%list in
+  sc2_run stop fl = Some (loop_count stop fl, loop_count stop fl,
+                          match fidx stop init 0 with Some _ => "m, err" | None => "m, nil" end).
+Proof.
+  intros stop init l fl. subst fl. unfold sc2_run, send_commands_code. fold sc2_body.
+  assert (Hn : nilb (init ++ [l])%list = false) by apply nilb_app_cons.
+  assert (Hl : e_len (sc2_env stop (init ++ [l])) "commands[:len(commands)-1]" = List.length init).
+  { cbn [sc2_env e_len String.eqb Ascii.eqb Bool.eqb]. rewrite app_length. cbn [List.length]. lia. }
+  assert (Herr : forall st, eval (sc2_env stop (init ++ [l])) st (DNot (DEq "err" "nil")) = Some false) by reflexivity.
+  rewrite exec_step_if.
+  replace (eval (sc2_env stop (init ++ [l])) []%list (DEq "len(commands)" "0")) with (Some false)
+    by (cbn [eval sc2_env e_eqs e_eq String.eqb Ascii.eqb Bool.eqb andb]; now rewrite Hn).
+  rewrite exec_step_nil. cbn [cont].
+  rewrite exec_step_call, exec_step_if, Herr, exec_step_nil. cbn [cont].
+  rewrite exec_step_assign, exec_step_range, Hl.
+  pose proof (sc2_loop stop l init []%list
+                [("m", "response.NewMultiResponse(d.Transport.GetHost())"); ("!call", "NewOperation(opts...)")]%list) as HL.
+  cbn [app List.length] in HL.
+  rewrite (loop_count_fidx stop l init).
+  destruct (fidx stop init 0) as [j|].
+  - destruct HL as [st' [-> [H1 H2]]]. cbn [cont]. rewrite Nat.add_0_r in H1, H2.
+    change (nsend _) with 0 in H1 at 2. change (nappend _) with 0 in H2 at 2.
+    cbn [Nat.add] in H1, H2. now rewrite H1, H2.
+  - destruct HL as [st' [-> [H1 H2]]]. cbn [cont].
+    rewrite exec_step_call, exec_step_if, Herr, exec_step_nil. cbn [cont].
+    rewrite exec_step_call, exec_step_return.
+    change (nsend (?a :: ?b :: st')%list) with (S (nsend st')).
+    change (nappend (?a :: ?b :: st')%list) with (S (nappend st')).
+    rewrite H1, H2. reflexivity.
 Qed.
